@@ -106,3 +106,20 @@ prop("C12", "proof",
      "narrow: hide/decorator wrappers do not change parsing; ParseHide::meta is Skip. Item collection/dedup/rendering are not covered.",
      ["append_meta, Dedup, write_help_item, usage normalisation, render_help"],
      note=VERUS_NOTE)
+
+
+def scan_interior_state(repo):
+    """C04 purity, assumption check (not a proof): no interior mutability or global mutable state in src/ outside tests"""
+    import glob, os, re
+    pat = re.compile(r"\b(static\s+mut|RefCell|Cell<|Mutex|RwLock|Atomic[A-Z]\w*|thread_local!|OnceCell|OnceLock|lazy_static)\b")
+    hits = []
+    files = 0
+    for f in sorted(glob.glob(os.path.join(repo, "src", "**", "*.rs"), recursive=True)):
+        if f.endswith("tests.rs") or "/docs2/" in f or f.endswith("_documentation.rs"):
+            continue
+        files += 1
+        for n, l in enumerate(open(f, encoding="utf-8"), 1):
+            code = l.split("//")[0]
+            if pat.search(code):
+                hits.append("%s:%d: %s" % (os.path.relpath(f, repo), n, code.strip()[:80]))
+    return {"files_scanned": files, "hits": hits, "note": "textual scan; an assumption check, not a proof"}
